@@ -236,9 +236,19 @@ ApplyChunk(ps, c) ==
 \* Layer forest (src/layer.rs compute_parents, Layer::is_visible)
 NL(ps) == Len(ps.layers)
 Level(ps, i) == ps.layers[i + 1].level
-\* declarative: the nearest preceding layer with a smaller nesting level
-ParentSet(ps, i) == {j \in 0..(i - 1) : Level(ps, j) < Level(ps, i)}
-Parent(ps, i) == IF Level(ps, i) = 0 \/ ParentSet(ps, i) = {} THEN None ELSE Some(Max(ParentSet(ps, i)))
+\* declarative: the nearest preceding layer with a smaller nesting level - stated on a bare sequence of nesting levels
+\* (layer ids are 0-based, sequences 1-based), so that it also applies where only the levels of a sprite are known
+ParentSetL(lv, i) == {j \in 0..(i - 1) : lv[j + 1] < lv[i + 1]}
+\* (FoldSet rather than FiniteSetsExt!Max: that one is quadratic in TLC, and a sprite can have 2^16 layers and more)
+MaxOf(S) == FoldSet(LAMBDA x, acc : IF x > acc THEN x ELSE acc, -1, S)
+ParentL(lv, i) == IF lv[i + 1] = 0 THEN None ELSE LET S == ParentSetL(lv, i) IN IF S = {} THEN None ELSE Some(MaxOf(S))
+RECURSIVE AncestorsL(_, _)
+AncestorsL(lv, i) == LET p == ParentL(lv, i) IN IF IsNone(p) THEN {} ELSE {p[1]} \cup AncestorsL(lv, p[1])
+\* own visible flag and the flags of all ancestors
+VisibleL(lv, vis, i) == \A j \in {i} \cup AncestorsL(lv, i) : vis[j + 1]
+Levels(ps) == [i \in 1..NL(ps) |-> ps.layers[i].level]
+ParentSet(ps, i) == ParentSetL(Levels(ps), i)
+Parent(ps, i) == ParentL(Levels(ps), i)
 \* code-shaped: recursive walk through the parents
 RECURSIVE VisibleRec(_, _)
 VisibleRec(ps, i) ==
@@ -249,6 +259,21 @@ RECURSIVE Ancestors(_, _)
 Ancestors(ps, i) == IF IsNone(Parent(ps, i)) THEN {} ELSE {Parent(ps, i)[1]} \cup Ancestors(ps, Parent(ps, i)[1])
 VisibleDecl(ps, i) == \A j \in {i} \cup Ancestors(ps, i) : HasBit(ps.layers[j + 1].flags, FlagVisible)
 Visible(ps, i) == VisibleRec(ps, i)
+\* the same two notions for all layers at once, in one pass each (a stack of open ancestors, as compute_parents could do it;
+\* visibility of a layer from the already computed visibility of its parent). Trace validation uses these on sprites
+\* with hundreds of layers; MC_Forest checks on every forest within its bounds that they equal Parent / VisibleDecl.
+ParentVec(ps) ==
+  LET n == NL(ps)
+      \* acc = [par |-> parents so far, open |-> stack of layer ids whose level strictly increases from bottom to top]
+      StepP(acc, i) ==
+        LET lv == Level(ps, i)
+            keep == SelectSeq(acc.open, LAMBDA j : Level(ps, j) < lv)
+        IN [par |-> Append(acc.par, IF lv = 0 \/ keep = <<>> THEN None ELSE Some(keep[Len(keep)])), open |-> Append(keep, i)]
+  IN FoldLeft(StepP, [par |-> <<>>, open |-> <<>>], [i \in 1..n |-> i - 1]).par
+VisibleVec(ps) ==
+  LET par == ParentVec(ps)
+      StepV(acc, i) == Append(acc, HasBit(ps.layers[i + 1].flags, FlagVisible) /\ (IsNone(par[i + 1]) \/ acc[par[i + 1][1] + 1]))
+  IN FoldLeft(StepV, <<>>, [i \in 1..NL(ps) |-> i - 1])
 \* the layer sequences the properties quantify over
 ProperForest(ps) ==
   NL(ps) = 0 \/ (Level(ps, 0) = 0 /\ \A i \in 1..(NL(ps) - 1) : Level(ps, i) <= Level(ps, i - 1) + 1)
